@@ -1029,7 +1029,22 @@ run_op(char *op, int last)
         int fid = m ? id_of(m) : -1;
         if (fid >= 0) fprintf(stdout, " %s F%d", rcname(r), fid);
         else fprintf(stdout, " %s F-", rcname(r));
-    } else if (law_mode && !strcmp(a[0], "newlist2") && na == 5) {
+    } else if (!strcmp(a[0], "findkeys") && na == 4) {
+        /* findkeys,<anchor>,<mod:name>,<predicates-hex>: lyd_find_sibling_val of a list instance by ALL its keys, the
+         * predicates in any order */
+        struct lyd_node *n = node_arg(a[1]), *m = NULL;
+        if (!n) REFUSE("NoNode");
+        if (!n->schema) REFUSE("OutOfFragment");
+        const struct lysc_node *s = find_schema_child(lysc_data_parent(n->schema), a[2]);
+        if (!s || s->nodetype != LYS_LIST || (s->flags & LYS_KEYLESS)) REFUSE("NoSchema");
+        char *pred = vp_unhex(a[3], NULL);
+        if (!pred) REFUSE("BadArg");
+        LY_ERR r = lyd_find_sibling_val(n, s, pred, 0, &m);
+        free(pred);
+        int fid = m ? id_of(m) : -1;
+        if (fid >= 0) fprintf(stdout, " %s F%d", rcname(r), fid);
+        else fprintf(stdout, " %s F-", rcname(r));
+    } else if (!strcmp(a[0], "newlist2") && na == 5) {
         /* newlist2,<id>,<parent|->,<mod:name>,<predicates-hex>: lyd_new_list2 (keys as predicates, in any order) */
         int id = atoi(a[1]);
         struct lyd_node *parent = NULL, *node = NULL;
@@ -1050,7 +1065,7 @@ run_op(char *op, int last)
             register_new(node);
         }
         done(r, search);
-    } else if (law_mode && !strcmp(a[0], "newpath") && na == 5) {
+    } else if (!strcmp(a[0], "newpath") && na == 5) {
         /* newpath,<id>,<parent|->,<path-hex>,<value-hex>: lyd_new_path; every node it creates gets an id */
         int id = atoi(a[1]);
         struct lyd_node *parent = NULL, *node = NULL, *top;
@@ -1268,6 +1283,25 @@ rbs_run(struct lyd_node *c, const struct lysc_node *ll, char *script, int show)
                 lyd_unlink_tree(nw);
                 if (lyd_insert_child(c, nw)) { if (show) fputs(" | R:InsertFailed", stdout); lyd_free_tree(nw); continue; }
             }
+        } else if (k[i][0] == 's') {
+            /* s<idx>: lyd_unlink_siblings() of the idx-th instance: it and all following ones leave (lyds_split takes each out of
+             * the tree by rb_remove_node; from the leader on, the whole list leaves with its tree); the detached list is freed */
+            idx = atoi(k[i] + 1);
+            j = 0;
+            nw = NULL;
+            LY_LIST_FOR(lyd_child(c), n) {
+                if (n->schema != ll) continue;
+                if (j++ == idx) { nw = n; break; }
+            }
+            if (!nw || !isdigit((unsigned char)k[i][1])) { if (show) fputs(" | R:NoInst", stdout); continue; }
+            if (lyd_unlink_siblings(nw)) { if (show) fputs(" | R:UnlinkFailed", stdout); continue; }
+            if (idx > 0) {
+                /* the detached instances carry no lyds metadata */
+                struct lyd_meta *mt = NULL;
+                LY_LIST_FOR(nw, n) { lyds_get_rb_tree(n, &mt); if (mt && show) fputs(" | X:DetachedMeta", stdout); }
+            }
+            LY_LIST_FOR(nw, n) { j = rbs_serial(n); if (j >= 0) rbs_tab[j] = NULL; }
+            lyd_free_siblings(nw);
         } else {
             if (show) fputs(" | R:BadOp", stdout);
             continue;
@@ -1310,6 +1344,37 @@ rbs_op(const char *id, char *script)
  * in the source script: a lyd_dup_siblings() copy of them, which has no sorting tree) are moved into the first in one call
  * (lyd_unlink_siblings + lyd_insert_child of a node with siblings -> lyd_move_nodes -> lyds_merge; a single source
  * instance goes through lyd_insert_node). */
+/* `rbd <dst script> <src script>`: two containers filled by rbs scripts, then lyd_merge_siblings(&dst, src, LYD_MERGE_DESTRUCT):
+ * the source leaf-list's red-black nodes and metadata go to the lyds pool (lyds_pool_add), every source instance whose
+ * value the target lacks is moved by lyds_insert2 reusing pooled nodes (lyds_additionally_reuse_rb_tree when the target
+ * leader has no tree yet), the rest of the pool and of the source is released (lyds_pool_clean). */
+static void
+rbd_op(const char *id, char *dscript, char *sscript)
+{
+    const struct lysc_node *cont, *ll = rbs_schema(&cont);
+    struct lyd_node *a = NULL, *b = NULL;
+    LY_ERR r;
+
+    if (!ll || lyd_new_inner(NULL, cont->module, cont->name, 0, &a) || lyd_new_inner(NULL, cont->module, cont->name, 0, &b)) {
+        lyd_free_all(a);
+        vp_reply(id, "err NoList");
+        return;
+    }
+    rbs_n = 0;
+    rbs_run(a, ll, dscript, 0);
+    rbs_run(b, ll, sscript, 0);
+    fprintf(stdout, "%s ok", id);
+    r = lyd_merge_siblings(&a, b, LYD_MERGE_DESTRUCT);
+    if (r) {
+        fprintf(stdout, " | R:MergeFailed");
+    } else {
+        rbs_show(a, ll);
+    }
+    fputc('\n', stdout);
+    fflush(stdout);
+    lyd_free_all(a);
+}
+
 static void
 rbm_op(const char *id, char *dscript, char *sscript)
 {
@@ -1391,6 +1456,16 @@ sib_main(void)
             cur = get_ctx(r.tok[5]);
             if (!cur) { vp_reply(id, "err BadSchema"); continue; }
             rbs_op(id, r.tok[6]);
+#else
+            vp_reply(id, "err NoWb");
+#endif
+            continue;
+        }
+        if (r.ntok == 8 && !strcmp(r.tok[1], "sib") && !strcmp(r.tok[2], "rbd")) {
+#ifdef SIB_WB
+            cur = get_ctx(r.tok[5]);
+            if (!cur) { vp_reply(id, "err BadSchema"); continue; }
+            rbd_op(id, r.tok[6], r.tok[7]);
 #else
             vp_reply(id, "err NoWb");
 #endif
